@@ -265,12 +265,12 @@ impl<'a> Exec<'a> {
 	fn violation(&mut self, prop: &str, class: &str, detail: String) {
 		let (prop, class) = if (self.victim_ctx || self.deferral_happened) && !class.starts_with("locked-tree") {
 			("C11", format!("after-deferral:{class}"))
-		} else if self.reject_ctx {
-			("C08", format!("visible-after-reject:{class}"))
-		} else if self.cfg.scenario == "admin" && (prop == "C02" || prop == "C03") {
-			("C17", format!("after-admin:{class}"))
 		} else if self.claim_ctx {
 			("C14", format!("claimed-slots-leaked-by-crash:{class}"))
+		} else if self.reject_ctx {
+			("C08", format!("visible-after-reject:{class}"))
+		} else if self.cfg.scenario == "admin" && (prop == "C02" || prop == "C03" || prop == "C14") {
+			("C17", format!("after-admin:{class}"))
 		} else if self.leak_expected && (prop == "C14" || class == "entries-changed" || class == "entry-count") {
 			("C08", format!("tree-assembly-side-effect:{class}"))
 		} else if (self.cfg.scenario == "sizes" || self.cfg.scenario == "tree") && prop == "C14" {
@@ -1869,6 +1869,7 @@ impl<'a> Exec<'a> {
 			Op::LogFuzz { muts, adopt } => crate::faultops::logfuzz(self, muts, *adopt),
 			Op::LockTree(c, k) => crate::treeops::lock_tree(self, *c, *k),
 			Op::UnlockTree(c, k) => crate::treeops::unlock_tree(self, *c, *k),
+			Op::TreeHandle(c, k) => crate::treeops::tree_handle(self, *c, *k),
 			Op::Admin(a, pending) => crate::adminops::admin(self, a, *pending),
 		}
 		if self.db.is_none() {
